@@ -139,24 +139,26 @@ type actor struct {
 }
 
 type Sim struct {
-	Tape      *Tape
-	submit    chan *op
-	pending   []*op
-	listeners map[string]*Listener
-	ends      []*End
-	actors    []*actor
-	J         *Journal
-	Seq       uint64
-	Start     time.Time
-	Stats     map[string]int // fault kinds and probes, counted when they fire
-	DialHook  func(network, from, to string) DialVerdict
-	DialLog   []DialRec
-	invs      []func() *Violation
-	Viol      *Violation
-	names     map[string]int
-	Steps     int
-	Draining  bool // set by scenarios once fault injection has stopped
-	stepHook  func()
+	// PartialWrites: a granted write may take only a prefix of the data (full socket buffer)
+	PartialWrites bool
+	Tape          *Tape
+	submit        chan *op
+	pending       []*op
+	listeners     map[string]*Listener
+	ends          []*End
+	actors        []*actor
+	J             *Journal
+	Seq           uint64
+	Start         time.Time
+	Stats         map[string]int // fault kinds and probes, counted when they fire
+	DialHook      func(network, from, to string) DialVerdict
+	DialLog       []DialRec
+	invs          []func() *Violation
+	Viol          *Violation
+	names         map[string]int
+	Steps         int
+	Draining      bool // set by scenarios once fault injection has stopped
+	stepHook      func()
 }
 
 type DialRec struct {
@@ -965,6 +967,17 @@ func (s *Sim) grantWrite(o *op) {
 		s.finish(o)
 		return
 	}
+	if rest := len(o.data) - o.off; s.PartialWrites && rest > 1 && s.Tape.Bool(1, 3) {
+		// the socket buffer takes only part of the write: the caller stays blocked with the
+		// rest (and gets a short count if its write deadline passes meanwhile)
+		k := 1 + s.Tape.Choose(rest-1)
+		e.Peer.inflight = append(e.Peer.inflight, seg{o.data[o.off : o.off+k]})
+		e.BytesOut += k
+		s.J.AddData(s, "write-part", e, o.data[o.off:o.off+k])
+		o.off += k
+		s.Count("fault.write.partial")
+		return
+	}
 	e.Peer.inflight = append(e.Peer.inflight, seg{o.data[o.off:]})
 	e.BytesOut += len(o.data) - o.off
 	e.WritesOut++
@@ -1128,6 +1141,18 @@ func (s *Sim) PendingWriteData(prefix string) [][]byte {
 		}
 	}
 	return out
+}
+
+// PendingDials is the number of connection attempts of the system under test that the
+// scheduler has not completed yet.
+func (s *Sim) PendingDials() int {
+	n := 0
+	for _, o := range s.pending {
+		if o.kind == opDial && !o.black {
+			n++
+		}
+	}
+	return n
 }
 
 // HasPending reports whether a goroutine is parked in an op of the given kind on an end
